@@ -56,6 +56,9 @@ def chains(depth):
     # 'p' / 'P': markers followed by more than one space ("-   ", "1.  "): the content offset is wider than marker + 1
     for c in ('p', 'P', 'qp', 'pq', 'bp', 'pb', 'pP'):
         yield c
+    # 'i' / 'I' / 'J': the marker itself is indented by one to three columns relative to its container (" - ", "   * ", "  7) ")
+    for c in ('i', 'I', 'J', 'qi', 'iq', 'bI', 'Ib', 'iJ'):
+        yield c
 
 
 def jobs(tier):
@@ -89,7 +92,7 @@ def embed(lines, chain):
             lines = ['9. ab'] + [('10. ' if i == 0 else '    ') + l if l else l for i, l in enumerate(lines)]
             prefixes = [''] + [('10. ' if i == 0 else '    ') + p for i, p in enumerate(prefixes)]
         else:
-            m = {'b': '- ', 'w': '10. ', 'o': '1. ', 'p': '-   ', 'P': '1.  '}[c]
+            m = {'b': '- ', 'w': '10. ', 'o': '1. ', 'p': '-   ', 'P': '1.  ', 'i': ' - ', 'I': '   * ', 'J': '  7) '}[c]
             lines = [(m if i == 0 else ' ' * len(m)) + l if l else l for i, l in enumerate(lines)]
             prefixes = [(m if i == 0 else ' ' * len(m)) + p for i, p in enumerate(prefixes)]
     return lines, prefixes
